@@ -44,7 +44,30 @@ class World:
         out = []
         for a in ctx.adapters:
             out += a.ops(ctx)
+        if getattr(self, "wallet_ops", False):
+            out += wallet_ops(ctx)
         return out
+
+
+def wallet_ops(ctx):
+    """Operations of the wallet itself (Broker.swap_by_from / swap_by_to between the first two wallet tokens, at the bar's prices)."""
+    from .kit import Op
+
+    toks = [t for t in ctx.broker.assets.keys()][:2]
+    if len(toks) < 2:
+        return []
+    a, b = toks
+    bal = lambda t: ctx.broker.get_token_balance(t)
+    out = []
+    for fn in ("swap_by_from", "swap_by_to"):
+        for cls in ("part", "over", "float", "0"):
+            def call(c, fn=fn, cls=cls):
+                row = c.price_row()
+                have = bal(a) if fn == "swap_by_from" else bal(a) * row[a.name] / row[b.name]
+                amt = {"part": have / 7, "over": have * 3, "float": float(have) / 7, "0": Decimal(0)}[cls]
+                return getattr(c.broker, fn)(a, b, amt, row)
+            out.append(Op(f"wallet.{fn}[{a.name}->{b.name},{cls}]", call, cls != "part" or fn == "swap_by_to", f"wallet.{fn}"))
+    return out
 
 
 def _decimal_prices(df):
@@ -84,7 +107,9 @@ def uni_world(orient="q0", frozen_bar=1, closes=(200000, 200013, 199991), fee_vo
         ("uni.sell[all]",),
         ("uni.buy[all]",),
     )
-    return World(f"uni({orient})", build, roots, {"uni.data": data, "prices": prices})
+    w = World(f"uni({orient})", build, roots, {"uni.data": data, "prices": prices})
+    w.wallet_ops = orient == "q0"  # the wallet's own swaps are explored once, beside the pool quoted in token0 (and beside the lending market)
+    return w
 
 
 def uni_xq_world(frozen_bar=1):
@@ -139,7 +164,9 @@ def aave_world(frozen_bar=1, n=4):
     )
     fr = {f"aave.{k}": v for k, v in frames.items()}
     fr["prices"] = prices
-    return World("aave", build, roots, fr)
+    w = World("aave", build, roots, fr)
+    w.wallet_ops = True
+    return w
 
 
 # ---------------------------------------------------------------------------------------------------------
